@@ -1,7 +1,8 @@
 (* C01 — every XML stream the library emits is well-formed. *)
 From Odf Require Import model.Base model.Chars model.XmlPrint model.XmlLex model.XmlTree model.Inst
   gen.GenChars proofs.XmlPrintProofs proofs.XmlLexProofs proofs.XmlTokProofs proofs.XmlResolveProofs
-  proofs.XmlRoundTrip proofs.XmlInst model.NsTable gen.GenNs proofs.NsTableProofs proofs.NsInst.
+  proofs.XmlRoundTrip proofs.XmlInst model.NsTable gen.GenNs proofs.NsTableProofs proofs.NsInst
+  model.Doc gen.GenStyleRefs proofs.DocProofs proofs.DocInst.
 
 (* after the filter only XML 1.0 Char code points remain, for every Python string *)
 Theorem C01_only_chars : forall s, in_codespace s ->
@@ -35,3 +36,17 @@ Theorem C01_history : forall ops q atts kids, Forall (op_ok F) ops ->
   exists t, xml_parse (xml_prologue ++ node_toXml F (nsp (reach ops)) true (Elem q atts kids)) = Some t.
 Proof. intros. eexists. now apply reachable_roundtrip. Qed.
 Print Assumptions C01_history.
+
+(* the package parts and the flat document are well-formed *)
+Theorem C01_parts : forall env d,
+  doc_ok F env (content_tree RA d) = true -> doc_ok F env (styles_tree RA d) = true ->
+  doc_ok F env (meta_tree toolsversion d) = true -> doc_ok F env (settings_tree d) = true ->
+  doc_ok F env (topnode (norm_gen toolsversion d)) = true ->
+  (exists t, xml_parse (i_contentxml env d) = Some t) /\ (exists t, xml_parse (i_stylesxml env d) = Some t) /\
+  (exists t, xml_parse (snd (i_metaxml env d)) = Some t) /\ (exists t, xml_parse (i_settingsxml env d) = Some t) /\
+  (exists t, xml_parse (snd (i_flatxml env d)) = Some t).
+Proof.
+  intros env d H1 H2 H3 H4 H5. repeat split; eexists;
+    [now apply content_roundtrip|now apply styles_roundtrip|now apply meta_roundtrip|now apply settings_roundtrip|now apply flat_roundtrip].
+Qed.
+Print Assumptions C01_parts.
